@@ -566,8 +566,9 @@ structure Cfg where
   /-- `add_variable(name)` refuses a name whose storage key `'_' + name` is already in `__dict__` (as shipped: it
       overwrites that entry — `attributes` / `strict` clobber the container's own `_attributes` / `_strict`). -/
   addVarChecksKeys : Bool
-  /-- `add_attribute(name)` — hence `obj.name = v` for a new name — refuses a name that is already a key of
-      `__dict__` (as shipped: `obj._A = v` replaced the array of variable `A`). -/
+  /-- `add_attribute(name)` — hence `obj.name = v` for a new name — refuses the storage key of a variable
+      (`name = '_' + X` for a variable `X`; as shipped: `obj._A = v` replaced the array of variable `A`).  Any other
+      existing `__dict__` key (a linker's `name`, `_LAGS`, a mixin's `aliases`, …) is rebound and registered. -/
   addAttrChecksKeys : Bool
   deriving Repr, DecidableEq, Inhabited
 
@@ -647,7 +648,7 @@ def addVariable (cfg : Cfg) (s : Store) (name : Name) (v : Operand) (dtype : Opt
 def addAttribute (cfg : Cfg) (s : Store) (name : Name) : Store × Outcome :=
   if s.index.contains name then (s, .raised .duplicateName)
   else if s.attrs.contains name then (s, .raised .duplicateName)
-  else if cfg.addAttrChecksKeys && s.dictKeys.contains name then (s, .raised .duplicateName)
+  else if cfg.addAttrChecksKeys && s.varKeys.contains name then (s, .raised .duplicateName)
   else ({ s with attrs := s.attrs ++ [name] }, .ok)
 
 /-- The length test of `__setattr__` on the array built from a sequence. -/
